@@ -54,6 +54,19 @@ def thread_roots(ctx, cls):
     """for every function of the engine: the set of roots (thread entry points / public API) that can reach it"""
     fb, cg = ctx.fb(), ctx.cg()
     cache = {}
+    # thread bodies that are named functions: `std::thread(&Cls::body, this)` in S makes `body` what the lambda handed to
+    # std::thread is elsewhere — the entry of a thread created by S (same root label as the lambda form)
+    thread_entry = {}
+    for s_ in fb.in_file(FILES[cls]):
+        if not s_.ok:
+            continue
+        for n in s_.nodes.values():
+            if n.get("k") == "ctor" and n.get("cls") == "std::thread" and n.get("args"):
+                a = strip_wrappers(n["args"][0])
+                while a is not None and a.get("k") == "un" and a.get("op") == "&":
+                    a = strip_wrappers(a.get("v"))
+                if a is not None and a.get("k") == "fref":
+                    thread_entry.setdefault(a["n"], set()).add("λ[thread]@%s" % short(_top(s_).name))
 
     def is_sync_lambda(f):
         role = cg.lambda_role.get(f.name, {})
@@ -85,6 +98,7 @@ def thread_roots(ctx, cls):
             return cache[name]
         if f is not None and f.kind in ("ctor", "dtor"):
             out.add(short(name))
+        out |= thread_entry.get(name, set())
         if not callers and not out:
             out.add(short(name))
         for c in callers:
@@ -142,10 +156,14 @@ class Deep:
     def callees(self, e):
         if e.kind != "stmt":
             return ()
-        key = id(e)
+        return self.node_callees(e.fn, e.node)
+
+    def node_callees(self, fn, n):
+        """the helpers a call expression of function fn enters"""
+        key = (id(fn), id(n))
         if key in self._callees:
             return self._callees[key]
-        n, out = e.node, []
+        out = []
         k = n.get("k")
         name = None
         if k in ("call", "mcall") and not n.get("virt"):
@@ -153,7 +171,7 @@ class Deep:
         elif k == "ctor":
             name = n.get("cls", "") + "::<ctor>"
         if name and not name.startswith("std::"):
-            fam = _family(e.fn)
+            fam = _family(fn)
             nargs = len([a for a in n.get("args", []) if not a.get("def")])
             seen = set()
             for g in self.fb.by_name.get(name, []):
@@ -618,8 +636,10 @@ def r4(ctx, r):
                 r.instance()
                 r.expect(la.holds(f, e, SYNC), f, e, "ParkGuard destroyed unlocked", "a ParkGuard is destroyed (counter decrement + teardown notify) without syncMutex held",
                          okdesc="~ParkGuard under syncMutex (%s line %s)" % (short(f.name), e.line))
+            # (constructed by make_unique, directly, or in place in a holder: `std::optional<FlushGuard>::emplace(...)`)
             if e.kind == "stmt" and ((e.node.get("k") == "call" and e.node.get("callee") == "std::make_unique" and "FlushGuard" in e.node.get("t", "")) or
-                                     (e.node.get("k") == "ctor" and e.node.get("cls", "").endswith("FlushGuard"))):
+                                     (e.node.get("k") == "ctor" and e.node.get("cls", "").endswith("FlushGuard")) or
+                                     (e.node.get("k") == "mcall" and last(e.node.get("callee", "")) == "emplace" and "FlushGuard" in ((strip_wrappers(e.node.get("obj")) or {}).get("t", "")))):
                 r.instance()
                 r.expect(la.holds(f, e, SYNC), f, e, "FlushGuard created unlocked", "FlushGuard constructed without syncMutex", okdesc="FlushGuard ctor under syncMutex")
     # FlushGuard's destructor takes the lock itself before touching the counters
@@ -793,19 +813,28 @@ def r5(ctx, r):
         r.expect(ok, sdr, res[0][1] if res and res[0][0] is sdr else None, "residual promises",
                  "shutdownDrain does not fail the promises of commands left in the queue (outside the lock)", okdesc="%s::shutdownDrain fails residual promises outside the lock" % last(cls))
         # addListener: a refused enqueue is reported, never waited on
+        # (decided in whichever function waits on the future — addListener itself or the branch of it that became a helper; the
+        # enqueue whose result guards the wait must stand in the same function, else the path predicate cannot be followed)
         al = fb.func(cls + "::addListener", file_suffix=FILES[cls])
-        gets = [e for e in al.stmts() if e.node.get("k") == "mcall" and last(e.node.get("callee", "")) == "get" and "future" in e.node.get("callee", "")]
-        enq = [e for e in al.stmts() if e.node.get("k") == "mcall" and e.node.get("callee") == cls + "::enqueue"]
+        is_get = lambda e: e.kind == "stmt" and e.node.get("k") == "mcall" and last(e.node.get("callee", "")) == "get" and "future" in e.node.get("callee", "")
+        waiters = [g for g in dp.closure(al) if any(is_get(e) for e in g.stmts())]
         r.instance()
-        vocab = Vocab(["enq_ok"])
+        if not waiters:
+            r.fail(al, None, "future waited after refused enqueue", "%s::addListener no longer waits on the bind future" % last(cls))
+        for g in waiters:
+            gets = [e for e in g.stmts() if is_get(e)]
+            enq = [e for e in g.stmts() if e.node.get("k") == "mcall" and e.node.get("callee") == cls + "::enqueue"]
+            if not enq:
+                raise AnalysisBroken("%s waits on the bind future but the enqueue that guards the wait is in another function" % short(g.name))
+            vocab = Vocab(["enq_ok"])
 
-        def leaf(n, cls=cls):
-            if n.get("k") == "mcall" and n.get("callee") == cls + "::enqueue":
-                return A("enq_ok")
-            return None
-        pa = PredAbs(al, vocab, leaf, lambda e: [("havoc", "enq_ok")] if e in enq else None)
-        r.expect(bool(gets) and all(pa.entails(g, A("enq_ok")) for g in gets), al, gets[0] if gets else None, "future waited after refused enqueue",
-                 "%s::addListener waits on the bind future although the command may not have been queued" % last(cls), okdesc="%s::addListener: fut.get() only after a successful enqueue" % last(cls))
+            def leaf(n, cls=cls):
+                if n.get("k") == "mcall" and n.get("callee") == cls + "::enqueue":
+                    return A("enq_ok")
+                return None
+            pa = PredAbs(g, vocab, leaf, lambda e, enq=enq: [("havoc", "enq_ok")] if e in enq else None)
+            r.expect(all(pa.entails(x, A("enq_ok")) for x in gets), g, gets[0], "future waited after refused enqueue",
+                     "%s waits on the bind future although the command may not have been queued" % short(g.name), okdesc="%s: fut.get() only after a successful enqueue" % short(g.name))
 
 
 # ------------------------------------------------------------------ R6
@@ -818,20 +847,34 @@ def r6(ctx, r):
         is_eng = lambda e, name=name: e.kind == "stmt" and e.node.get("k") == "mcall" and last(e.node.get("callee", "")) == name and "EngineBase" in e.node.get("callee", "")
         # the identity tests: branches on a comparison of the calling thread with getIoThreadId(), in the function or in a helper of
         # Transport it calls; whichever way round the test is spelled, its `equal` edge is the I/O thread's
+        # — or on a call to a named test whose one return statement is that comparison (`bool calledOnIoThread()`)
+        def equal_when_true(c):
+            cp = common.cmp_parts(c) if c is not None else None
+            if cp and cp[0] in ("==", "!=") and "getIoThreadId" in show(c):
+                return cp[0] == "=="
+            return None
         guards = []
         for g in dp.closure(f):
             for b in g.blocks.values():
-                cp = common.cmp_parts(strip_casts(b.cond)) if b.cond is not None and len(b.succs) == 2 else None
-                if cp and cp[0] in ("==", "!=") and "getIoThreadId" in show(b.cond):
-                    guards.append((g, b, 0 if cp[0] == "==" else 1))
+                c, s_true, s_false = common.branch(b)
+                if c is None or s_true == s_false:
+                    continue
+                eq = equal_when_true(c)
+                if eq is None and c.get("k") in ("call", "mcall"):
+                    for h in dp.node_callees(g, c):
+                        rets = [e.node for e in h.stmts() if e.node.get("k") == "ret"]
+                        if len(rets) == 1 and rets[0].get("v") is not None:
+                            eq = equal_when_true(strip_casts(rets[0]["v"]))
+                if eq is not None:
+                    guards.append((g, b, s_true if eq else s_false))
         if not guards and dp.has(f, lambda e: e.kind == "stmt" and "getIoThreadId" in show(e.node)):
             raise AnalysisBroken("Transport::%s still reads getIoThreadId() but not in a branch condition the rule can follow" % name)
         ok = bool(guards) and dp.has(f, is_eng) and dp.has(f, lambda e: e.kind == "stmt" and e.node.get("k") == "throw")
         if ok:
             # the engine call is not reachable through the I/O thread's edge of any of the tests
             enter = dp.relevant(f, is_eng)
-            ok = all(g_.blocks[b.id].succs[si] is not None and dp.search(f, ("block", s, g_, b.succs[si]), lambda e, st_: is_eng(e), enter=enter) is None
-                     for (g_, b, si) in guards for s in dp.stacks(f, g_))
+            ok = all(io_succ is not None and dp.search(f, ("block", s, g_, io_succ), lambda e, st_: is_eng(e), enter=enter) is None
+                     for (g_, b, io_succ) in guards for s in dp.stacks(f, g_))
         r.expect(ok, f, None, "%s: no I/O-thread guard" % name, "Transport::%s can reach the engine's blocking %s() from the I/O thread (self-join / self-wait)" % (name, name),
                  okdesc="Transport::%s throws on the I/O thread before calling the engine" % name)
 
@@ -888,6 +931,22 @@ def _is_cv_wait(e):
     return e.kind == "stmt" and e.node.get("k") == "mcall" and e.node.get("callee", "").startswith("std::condition_variable") and last(e.node["callee"]) in common.CV_WAIT
 
 
+def _wait_loop(g, we):
+    """`while (!pred) cv.wait(lk);` is what `cv.wait(lk, pred)` is defined as: for a wait without a predicate, the loop head
+    (block) whose body holds the wait and leads back to the head — leaving the loop through the head is 'waited, or nothing to
+    wait for', exactly like the predicate form.  None if the wait stands in no such loop."""
+    out = []
+    for b in g.blocks.values():
+        if not b.term or b.term.get("k") not in ("WhileStmt", "ForStmt", "DoStmt") or b.cond is None or len(b.succs) != 2 or b.succs[0] is None or not b.elems:
+            continue
+        in_head = lambda x, b=b: x.block is b
+        if search(g, ("block", b.succs[0]), lambda x: x is we, stop=in_head, eh=False) is not None and search(g, we, in_head, eh=False) is not None:
+            out.append(b)
+    if len(out) > 1:       # nested loops: the innermost is the one whose head the wait reaches without passing another head
+        out = [b for b in out if search(g, we, lambda x, b=b: x.block is b, stop=lambda x, b=b: any(x.block is o for o in out if o is not b), eh=False) is not None]
+    return out[0] if len(out) == 1 else None
+
+
 def _is_join_of(cls):
     return lambda e: e.kind == "stmt" and e.node.get("k") == "mcall" and e.node.get("callee") == "std::thread::join" and field_of(e.node.get("obj")) == cls + "::_loop"
 
@@ -916,7 +975,10 @@ def _stop_behind_worker_end(r, dp, st, cls):
         if c.get("k") == "mcall" and last(c.get("callee", "")) == "joinable" and lab is False:
             return False
         return True
-    w = dp.search(st, ("entry",), "exit", stop=lambda e, s: is_join(e) or _is_cv_wait(e), edge_ok=edge_ok, enter=dp.relevant(st, lambda e: is_join(e) or _is_cv_wait(e)))
+    # (a predicate-less wait in its `while (!pred)` loop: the loop head is the barrier, as the call is for the predicate form)
+    heads = [b for (g, e) in dp.sites(st, _is_cv_wait) for b in [_wait_loop(g, e)] if b is not None and len([a for a in e.node["args"] if not a.get("def")]) < 2]
+    barrier = lambda e, s=None: is_join(e) or _is_cv_wait(e) or any(e.block is b for b in heads)
+    w = dp.search(st, ("entry",), "exit", stop=barrier, edge_ok=edge_ok, enter=dp.relevant(st, barrier))
     r.expect(w is None, st, None, "%s returns while the worker may still run" % what, "%s can return without having joined the worker thread or waited for the caller that is joining it (%s): a second caller that "
              "finds the stop already in progress returns at once while callbacks / handlers are still running or still to come" % (what, Deep.witness(w)),
              okdesc="%s: every return is behind the join or a wait for the joiner" % what)
@@ -944,9 +1006,12 @@ def _join_marker_in_cas_section(r, dp, st, cls):
     for w in waits:
         r.instance()
         g, we, P = w["f"], w["e"], w["pred"]
-        if P is None:
+        head = _wait_loop(g, we) if (P is None and not w["has_pred"]) else None
+        if P is None and head is None:
             raise AnalysisBroken("%s: the wait at %s has no predicate the rule can read; cannot tell what marks a join in progress" % (what, g.loc(we)))
-        markers = sorted({n["n"] for (h, n) in dp.nodes(P) if n.get("k") == "member" and "t" in n and not n["t"].startswith(("std::mutex", "std::condition_variable"))})
+        # what the waiter's condition reads: the predicate (a named test it delegates to included), or the condition of the wait loop
+        reads = list(dp.nodes(P)) if P is not None else [(g, n) for n in walk(head.cond)]
+        markers = sorted({n["n"] for (h, n) in reads if n.get("k") == "member" and "t" in n and not n["t"].startswith(("std::mutex", "std::condition_variable"))})
         if len(markers) != 1:
             raise AnalysisBroken("%s: the wait predicate at %s reads %s; the rule decides the handshake for a single marker field" % (what, g.loc(we), [last(m) for m in markers]))
         marker = markers[0]
@@ -964,12 +1029,19 @@ def _join_marker_in_cas_section(r, dp, st, cls):
             raise AnalysisBroken("%s: cannot identify the mutex held at the wait at %s (%s)" % (what, g.loc(we), sorted(ms or ())))
         M = next(iter(ms))
         # the value that means 'no join in progress' (predicate `marker == V`): a write of anything else sets the marker
+        # (loop form: the loop goes on while `marker != V`)
         idle = None
-        for e in P.stmts():
-            if e.node.get("k") == "ret" and e.node.get("v") is not None:
-                for (op, a, b) in common.cmp_both(strip_casts(e.node["v"])):
-                    if op == "==" and field_of(strip_views(a)) == marker:
-                        idle = show(strip_views(b))
+        if P is not None:
+            for e in P.stmts():
+                if e.node.get("k") == "ret" and e.node.get("v") is not None:
+                    for (op, a, b) in common.cmp_both(strip_casts(e.node["v"])):
+                        if op == "==" and field_of(strip_views(a)) == marker:
+                            idle = show(strip_views(b))
+        else:
+            c, s_true, s_false = common.branch(head)
+            for (op, a, b) in common.cmp_both(c):
+                if field_of(strip_views(a)) == marker and ((op == "!=" and s_true == head.succs[0] and s_true != s_false) or (op == "==" and s_false == head.succs[0] and s_true != s_false)):
+                    idle = show(strip_views(b))
         sets, all_writes = set(), []
         for h in closure:
             for (e, n, k) in common.field_writes(h, marker):
@@ -1114,15 +1186,20 @@ def r7(ctx, r):
             raise AnalysisBroken("%s: only %d may-free call sites seen" % (last(cls), ncalls))
         r.ok("%s: %d calls that may free a session; summaries: %s; no dereference of a stale Session*" % (last(cls), ncalls, {last(k): sorted(v) for k, v in summ.items()}))
     # ~Transport self-destruct branch: nothing after the hand-over touches this/_impl
+    # (the hand-over may be a helper of Transport / Impl that gets the released pointer: the three calls are looked for in the
+    # destructor and its helpers, their order is a must-pass-through over the inlined paths)
+    dp = _deep(ctx)
     dt = fb.func(TR + "::<dtor>")
-    rel = [e for e in dt.stmts() if e.node.get("k") == "mcall" and last(e.node.get("callee", "")) == "release"]
-    det = [e for e in dt.stmts() if e.node.get("k") == "mcall" and last(e.node.get("callee", "")) == "detachForTermination"]
-    sched = [e for e in dt.stmts() if e.node.get("k") == "mcall" and last(e.node.get("callee", "")) == "scheduleSelfDestruct"]
+    named = lambda nm: (lambda e: e.kind == "stmt" and e.node.get("k") == "mcall" and last(e.node.get("callee", "")) == nm)
+    is_rel, is_det, is_sched = named("release"), named("detachForTermination"), named("scheduleSelfDestruct")
+    rel = [e for e in dt.stmts() if is_rel(e)]
     r.instance()
-    ok = len(rel) == 1 and sched and det and elem_dominates(dt, rel[0], sched[0]) and elem_dominates(dt, sched[0], det[-1])
+    enter = dp.relevant(dt, lambda e: is_det(e) or is_sched(e))
+    ok = len(rel) == 1 and dp.has(dt, is_sched) and dp.has(dt, is_det) and dp.search(dt, ("entry",), lambda e, s: is_sched(e), stop=lambda e, s: is_rel(e), enter=enter) is None and \
+        dp.search(dt, rel[0], lambda e, s: is_det(e), stop=lambda e, s: is_sched(e), enter=enter) is None
     if ok:
         own = dt.root_elem(rel[0].node)
-        w = search(dt, rel[0], lambda x: x.kind == "stmt" and "root" in x.raw and x is not own and any(y.get("k") == "member" and y["n"] == TR + "::_impl" for y in walk(x.node)), eh=False)
+        w = dp.search(dt, rel[0], lambda x, s: x.kind == "stmt" and "root" in x.raw and x is not own and any(y.get("k") == "member" and y["n"] == TR + "::_impl" for y in walk(x.node)), enter=enter)
         ok = w is None
     r.expect(ok, dt, rel[0] if rel else None, "self-destruct order", "~Transport's I/O-thread branch does not release _impl, schedule the deferred delete, detach — in that order, touching _impl no more",
              okdesc="~Transport: release → scheduleSelfDestruct → detach, nothing after")
